@@ -288,6 +288,13 @@ func rebuildNode(ni *node_info.NodeInfo, ghosts []Ghost, st map[string]int) []st
 		}
 	}
 	pipelinedOnly := false
+	for _, t := range ni.PodInfos {
+		if t.IsSharedGPUAllocation() && (t.Status == pod_status.Pipelined || t.Status == pod_status.Releasing) {
+			// whole-GPU idle/releasing counts depend on the order in which pipelined sharers were added relative to
+			// the releasing ones: the rebuild (snapshot order) is not comparable for the gpu field
+			pipelinedOnly = true
+		}
+	}
 	for g := range groupSeen {
 		if !groupHasNonPipelined[g] {
 			pipelinedOnly = true
@@ -339,7 +346,7 @@ func rebuildNode(ni *node_info.NodeInfo, ghosts []Ghost, st map[string]int) []st
 	skip := map[string]bool{}
 	if pipelinedOnly {
 		skip["gpu"] = true
-		st["node_rebuilds_pipelined_only_group"]++
+		st["node_rebuilds_gpu_field_skipped_pipelined_sharer"]++
 	}
 	cmpVec("node "+ni.Name+" Idle vs rebuilt", resVec(ni.Idle), resVec(fresh.Idle), skip, &out)
 	cmpVec("node "+ni.Name+" Releasing vs rebuilt", resVec(ni.Releasing), resVec(fresh.Releasing), skip, &out)
